@@ -7,10 +7,12 @@ What is explored (all of it, nothing sampled), on the real ak.color / ak.ppobj /
            no_color output, line-by-line == whole, global configuration == explicitly passed one.
   hist     every history of <= depth operations over the alphabet of bounds(): render whole / by lines /
            through a suspended line iterator, under the global configuration, an explicit one, no_color,
-           a palette class, a palette object; drop a configuration (+gc), replace the global one; each
-           history replayed from a pristine world (mc.hist_render.World.reset), with adversarial id()
-           answers.  Oracle: the rendering obtained at the end of the history must be the one a fresh
-           process produces for the same (object, configuration in force, palette variant).
+           a palette class, a palette object; drop a configuration (+gc), replace the global one; change
+           a table's record limits; build a second table from the first one's format object; each
+           history replayed from a pristine world (mc.hist_render.World.reset: documented cache reset +
+           freshly built objects), with adversarial id() answers.  Oracle: the rendering obtained at the
+           end of the history must be the one a fresh process produces for the same (object, format,
+           configuration in force, palette variant) with *no* rendering before it.
   merge    two line iterators over the same table under different palettes advanced in *every* merge
            order (E3); each must deliver its pristine text.
   reset    self check of the harness: a block of histories is run in two different orders and must
@@ -18,6 +20,8 @@ What is explored (all of it, nothing sampled), on the real ak.color / ak.ppobj /
 """
 
 import itertools
+import os
+import sys
 
 from mc import core
 from mc import hist_render as H
@@ -56,8 +60,10 @@ ASSUMPTIONS = [
 REQUIRED_FEATURES = [
     "obj:pp", "obj:table", "obj:recfmt", "obj:ghist", "obj:hdoc",
     "how:global", "how:conf", "how:no_color", "how:palette-class", "how:palette-object",
-    "hist:drop", "hist:glob", "hist:config-recreated", "iter:suspended-across-op", "iter:by-lines",
-    "merge:interleaved", "static:colored-differs-per-config", "static:palette-class-differs", "static:strip-eq-no_color", "reset:orders-agree",
+    "hist:drop", "hist:glob", "hist:config-recreated", "hist:fmt-change", "iter:suspended-across-op",
+    "iter:by-lines",
+    "merge:interleaved", "static:colored-differs-per-config", "static:palette-class-differs",
+    "static:strip-eq-no_color", "reset:orders-agree",
 ]
 
 # ------------------------------------------------------------------------------------ alphabet
@@ -75,7 +81,8 @@ _LINES_Q = [("tbl", "cA"), ("pp", "g")]
 _OPEN_Q = [("tbl", "cA"), ("tbl", "cB"), ("tbl", "g"), ("gh", "cB")]
 _CONTROL = [["drop", "A"], ["drop", "B"], ["glob", "A"], ["glob", "B"], ["glob", "N"], ["glob", "-"],
             ["fmt", "tbl", "*"], ["fmt", "tbl", "1:1"], ["f"], ["hnew"], ["hp"]]
-# extra operations of the thorough tier (explored to depth 3; the quick alphabet to depth 4)
+# extra operations of the thorough tier: base + these = 'ext', explored to length 3 (the quick tier explores
+# 'base' to length 3; the thorough tier additionally explores the sub-alphabet _CORE at length 4)
 _EXTRA_T = ([["r", "tbl", h] for h in ("cN", "pcA", "pcB", "ponc")] +
             [["r", "pp", h] for h in ("cB", "po", "pcB")] +
             [["r", "gh", h] for h in ("pc", "po")] + [["r", "tbl2", "nc"], ["r", "tbl2", "cB"]] +
@@ -126,7 +133,9 @@ def bounds(tier):
 
 
 def shards(tier):
-    _reference()                      # computed once, in fresh processes, before the workers are forked
+    if os.path.basename(sys.argv[0]) == "runner.py":
+        _reference()                  # computed once, in fresh processes, before the workers are forked
+                                      # (other callers only list the shards; workers fall back to computing it)
     sh = [("static",), ("reset", 0), ("reset", 1)]
     if tier == "quick":
         for i in range(len(alphabet("base"))):
